@@ -223,13 +223,13 @@ def shapes_of(rng, mcv, is_jumbo, args):
 
 def run(chk):
     chk.trusted_base = common.BASE_TRUST + [
-        "translate/units/footprint.py + _stagec.py (havoc mode): the handlers of ovni/event.c, ovni/mark.c and the pre_task chains and pre_type of nosv/event.c and nanos6/event.c are rendered into coq/Gen/Foot_gen.v on every run with explicit bounds-checked payload reads; everything but the event is an arbitrary oracle (coq/Emu/FootPre.v); the translator checks that untranslated callees can only receive the event if they never mention `payload`; in pre_type a pointer into the payload is a byte offset, memcpy/memchr are explicit bounds-checked reads and the label handed to the untranslated task_type_create is assumed to be read as a C string only (a NUL inside the payload is then required and proved); clang's AST and the Python printer are trusted",
+        "translate/units/footprint.py + _stagec.py (havoc mode): the handlers of ovni/event.c, ovni/mark.c and the pre_task chains and pre_type of nosv/event.c and nanos6/event.c are rendered into coq/Gen/Foot_gen.v on every run with explicit bounds-checked payload reads, and the dispatch code of the other seven models (model_<m>_event, process_ev, simple, context_switch of nosv, nanos6, nodes, mpi, tampi, openmp, kernel /event.c) into coq/Gen/FootAll_gen.v, where the static tables ss_table / fn_table are arbitrary rows (FootPre.opq_row); everything but the event is an arbitrary oracle (coq/Emu/FootPre.v); the translator checks that untranslated callees can only receive the event if they never mention `payload`; in pre_type a pointer into the payload is a byte offset, memcpy/memchr are explicit bounds-checked reads and the label handed to the untranslated task_type_create is assumed to be read as a C string only (a NUL inside the payload is then required and proved); clang's AST and the Python printer are trusted",
         "translator translate/c2gallina.py (clang JSON AST -> Gallina) for ovni_ev_size, ovni_payload_size, get_jumbo_payload_size (unit loader) and next_ev_size (unit loader_step); struct layout and constants evaluated by the compiler; validated each run against the compiled C (harness/loader_h.c Z lines)",
         "hand model of stream.c load_obs/check_stream_header/stream_step (coq/Emu/StreamDefs.v) validated each run against the real stream.c in process (harness/loader_h.c, guard pages on both sides of the buffer) and through ovnidump/ovniemu",
         "hand-written read footprints of the translated functions, proved sound against the translation (C19_footprint_*)",
         "extraction (ExtrOcamlBasic only) + OCaml 4.13 + oracle/loader_drv.ml",
         "AddressSanitizer/UBSan of gcc and the OVNI_VERIF_HEAPBUF hook for the support campaign",
-        "not covered by a theorem (sanitizer campaign only): event handlers, ev_spec.c print_arg, parson, the rest of the emulator and of ovnisort",
+        "not covered by a theorem (sanitizer campaign only): ev_spec.c print_arg, ovnidump's printing, parson, the rest of the emulator and of ovnisort (the payload reads of the event handlers of all eight models and of mark_event are covered by C19_all_handlers_read_in_bounds_partial)",
     ]
     chk.assumptions = ["stream->clock_offset = 0 (no clock offset table in the trace directory)",
                        "a stream file is smaller than 2^63 bytes",
